@@ -74,6 +74,8 @@ def classify_c12(how, ident, home_changed, target_exists, executed):
     the file / directory is created exactly at the absolute path."""
     if not is_known('KF-C12-ABS'):
         return None
+    if how not in ('literal', 'literal-with-option', 'string-symbol', 'string-symbol-with-option', 'string-symbol-lead'):
+        return None     # (predicate: the absolute FILE-NAME is written literally or held by a STRING symbol - a path symbol has a relativity that is checked)
     if ident == 'PASS' and home_changed and target_exists:
         return 'KF-C12-ABS'
     return None
